@@ -218,10 +218,15 @@ def run_case(case, ctx):
         if got is None:
             continue
         p2, field = got
-        # a size perturbation is only a covered attribute if the written policy lists that size
-        if field in ('hksize', 'casize', 'catype') and 'host_key_sizes' not in text:
+        # a size is a covered attribute when the first audit measured it (judged from the server-side log, not from the file)
+        srv1 = r1['servers'][0]
+        if field in ('hksize', 'casize', 'catype') and not srv1['hostkeys_sent']:
             continue
-        if field == 'dh' and 'dh_modulus_sizes' not in text:
+        if field == 'hksize' and not any(hk['alg'] in gen.RSA_FAMILY for hk in srv1['hostkeys_sent']):
+            continue
+        if field in ('casize', 'catype') and not any('cert' in hk['alg'] for hk in srv1['hostkeys_sent']):
+            continue
+        if field == 'dh' and not any(rq['answer'] and rq['delivered'] and (rq['min'], rq['n'], rq['max']) != (1024, 2048, 8192) for rq in srv1['gex_requests']):
             continue
         r3 = audit(p2, kind)
         if r3.get('harness_error'):
